@@ -446,6 +446,14 @@ def part_tol(pid):
     return run
 
 
+def part_substrate(ctx):
+    from . import rules_sym
+    n = rules_sym.check_substrate(ctx, module(CFG[0], "ssa"), CFG[0])
+    ctx.explanation += ("R-SYM substrate: every caller that adjusts a substrate-grid vertex with _adjustOverageClassII (substrate = 1) passes pentLeading4 = 0 like its "
+                        "siblings (the leading-digit rotation applies to cell centres only). ")
+    ctx.floor("R-SYM", "vertex callers of _adjustOverageClassII", n, 3)
+
+
 def part_round3(ctx):
     from . import rules_sym
     n = rules_sym.check_round3(ctx, module(CFG[0], "ssa"), CFG[0])
@@ -520,13 +528,13 @@ PARTS = {
     "C05": [part_guards("C05"), part_errflow("C05"), part_bitprov("indexops", "C05"), part_tables(["T1", "T2", "T3", "T10", "T11", "T7", "T19"], {"T7": ["baseCellNeighbors", "baseCellNeighbor60CCWRots"]}, pid="C05"), part_cform("C05"), part_walk, part_hashmod("C05", 1), part_wit("C05")],
     "C06": [part_guards("C06"), part_errflow("C06"), part_bitprov("indexops", "C06"), part_drain(["uncompactCells"]), part_bw("C06"), part_cform("C06"), part_hashmod("C06", 2), part_family],
     "C07": [part_gate, part_qloop, part_sib, part_errflow("C07"), part_tables(["T17", "T18"], pid="C07")],
-    "C08": [part_fold("C08"), part_tables(["T5", "T9", "T13"], pid="C08"), part_cform("C08"), part_slice, part_wit("C08")],
+    "C08": [part_fold("C08"), part_tables(["T5", "T9", "T13"], pid="C08"), part_cform("C08"), part_slice, part_substrate, part_wit("C08")],
     "C09": [part_guards("C09"), part_errflow("C09"), part_bitprov("indexops", "C09"), part_tables(["T1", "T2", "T3", "T10", "T14", "T20", "T21", "T22"], pid="C09"), part_ovf, part_unitvec, part_wit("C09")],
     "C10": [part_guards("C10"), part_errflow("C10"), part_bitprov("indexops", "C10"), part_tables(["T8", "T12"], pid="C10"), part_cform("C10"), part_fold("C10"), part_slice, part_wit("C10")],
     "C11": [part_guards("C11"), part_errflow("C11"), part_tables(["T8", "T12", "T7"], {"T7": ["pentagonDirectionFaces"]}, pid="C11"), part_slice, part_wit("C11")],
     "C12": [part_guards("C12"), part_bitprov("validity"), part_bitprov("indexops", "C12"), part_ret, part_errdisc, part_errflow("C12"), part_ovf, part_idx, part_unitvec, part_bw(None), part_hashmod(None, 5), part_cform("C12"), part_wit("C12")],
     "C13": [part_guards("C13"), part_errflow("C13"), part_bitprov("indexops", "C13"), part_cform("C13"), part_wit("C13")], "C14": [part_guards("C14"), part_errflow("C14"), part_bw("C14"), part_cform("C14"), part_tables(["T14", "T20", "T21", "T22"], pid="C14"), part_unitvec, part_round3], "C15": [part_guards("C15"), part_errflow("C15"), part_bw("C15"), part_sib, part_gate, part_qloop, part_tables(["T17", "T18"], pid="C15"), part_wit("C15")],
-    "C19": [part_guards("C19"), part_tables(["T5", "T9"], pid="C19"), part_bw("C19"), part_cform("C19"), part_wit("C19")],
+    "C19": [part_guards("C19"), part_tables(["T5", "T9"], pid="C19"), part_bw("C19"), part_cform("C19"), part_substrate, part_wit("C19")],
     "C20": [part_guards("C20"), part_fmt, part_wit("C20")],
 }
 
